@@ -12,10 +12,10 @@ spec/NtsPacket.tla   cell-level model of the NTS extension fields, the authentic
 4. NtsPacketTrace.tla: monitor = property section on the recorded behaviour (VIOLATION), strict = outcome
    is what the specification predicts (DRIFT).
 """
-import collections, os
+import collections, os, threading
 import vlib
 
-JUDGED = {"ntpHeader", "uidField", "cookieField", "placeholderField", "nonce", "ciphertext"}
+JUDGED = {"ntpHeader", "uidField", "cookieField", "placeholderField", "nonceLenField", "ctLenField", "nonce", "ciphertext"}
 CLS = ("role", "nf", "kind", "region", "fi", "sub")
 
 
@@ -33,20 +33,47 @@ def sig_of(inv, r):
 
 def run(ctx):
     q = ctx.quick
-    # 1. design level
-    r = ctx.tlc("NtsPacketMC", "NtsPacket_exh.cfg" if q else "NtsPacket_deep.cfg", timeout=900)
-    ctx.log("TLC exhaustive: %d distinct states" % r["distinct"])
-    faults = [("NtsPacket_f_nouid.cfg", "uid comparison removed"), ("NtsPacket_f_adhdr.cfg", "associated data = NTP header only")]
-    for cfg, what in (faults[:1] if q else faults):
-        f = ctx.tlc("NtsPacketMC", cfg, timeout=300, workers=4, allow_violation=True, tag="fault:" + cfg)
-        if f["violated"] != "Sound":
-            raise vlib.Inconclusive("vacuity check: Sound is not violated by the faulty specification (%s)" % what)
-    if not q:
-        ctx.tlc("NtsPacketMC", "NtsPacket_repaired.cfg", timeout=600)
+    # 1. design level (runs next to the generator / driver pipeline)
+    ctx.specdir()
+    faults = [("NtsPacket_f_nouid.cfg", "Sound", "uid comparison removed"),
+              ("NtsPacket_f_parsepast.cfg", "Sound", "fields after the authenticator parsed"),
+              ("NtsPacket_f_ctclamp.cfg", "Sound", "ciphertext length clamped to the datagram"),
+              ("NtsPacket_f_adhdr.cfg", "Sound", "associated data = NTP header only"),
+              ("NtsPacket_f_parsepast2.cfg", "AuthenticOnly", "fields after the authenticator parsed")]
+    design = {}
+
+    def design_level():
+        try:
+            r = ctx.tlc("NtsPacketMC", "NtsPacket_exh.cfg" if q else "NtsPacket_deep.cfg", timeout=900, workers=4)
+            design["states"] = r["distinct"]
+            for cfg, inv, what in (faults[:2] if q else faults):
+                f = ctx.tlc("NtsPacketMC", cfg, timeout=300, workers=2, allow_violation=True, tag="fault:" + cfg)
+                if f["violated"] != inv:
+                    raise vlib.Inconclusive("vacuity check: %s is not violated by the faulty specification (%s)" % (inv, what))
+            if not q:
+                ctx.tlc("NtsPacketMC", "NtsPacket_phcookie.cfg", timeout=600, workers=4)
+        except Exception as e:          # re-raised in the main thread
+            design["err"] = e
+
+    th = threading.Thread(target=design_level)
+    th.start()
+    try:
+        _pipeline(ctx, q)
+    finally:
+        th.join()
+    if "err" in design:
+        raise design["err"]
+    ctx.log("TLC exhaustive: %d distinct states" % design["states"])
+
+
+def _pipeline(ctx, q):
     # 2. spec -> code: the cases
     g = ctx.tlc("NtsPacketMC", "NtsPacket_gen.cfg", workers=1, timeout=600, tag="gen")
     raw = ctx.emitted(g["out"])
     cases = classes(raw)
+    for k in ("replay+appenduid", "replay+appendcookie", "appenduid", "appendcookie"):
+        if not any(c["kind"] == k for c in cases):
+            raise vlib.Inconclusive("case generator produced no %s case" % k)
     if len(raw) < 1500 or len(cases) < 200:
         raise vlib.Inconclusive("case generator produced only %d behaviours / %d classes" % (len(raw), len(cases)))
     for c in cases:
@@ -58,6 +85,13 @@ def run(ctx):
     # 3. the real code
     trace, out = ctx.godriver("c10", "TestC10", cases=cp, timeout=1500)
     recs = vlib.read_ndjson(trace)
+    skipped = [x for x in recs if x["role"] == "skip"]
+    recs = [x for x in recs if x["role"] != "skip"]
+    if skipped:
+        shapes = sorted({(x["why"], x["nf"]) for x in skipped})
+        if any(nf < 8 for _, nf in shapes):
+            raise vlib.Inconclusive("the tree's encoder cannot produce shapes %s" % shapes)
+        ctx.notes.append("shapes the tree's encoder cannot produce (C11's subject), %d classes not exercised: %s" % (len(skipped), shapes))
     stats = "hang pre-filtered (not executed): %d, hang by watchdog: %d, packets per class: %d" % (
         sum(1 for x in recs if x["pre"]), sum(1 for x in recs if x["out"] == "hang" and not x["pre"]),
         len({x["pk"] for x in recs}))
@@ -80,7 +114,7 @@ def run(ctx):
     for x in recs:
         if x["kind"] == "flip" and x["touched"] != [x["region"]]:
             raise vlib.Inconclusive("concretiser touched %s for class %s" % (x["touched"], {k: x[k] for k in CLS}))
-    done = {tuple(x[f] for f in CLS) for x in recs}
+    done = {tuple(x[f] for f in CLS) for x in recs} | {(x["why"],) + tuple(x[f] for f in CLS[1:]) for x in skipped}
     missing = [c for c in cases if tuple(c[f] for f in CLS) not in done]
     if missing:
         raise vlib.Inconclusive("%d classes were not exercised, e.g. %s" % (len(missing), missing[0]))
@@ -131,8 +165,7 @@ def run(ctx):
     ctx.notes.append("panic/hang outcomes are C08's subject (decoder robustness); here they count as 'not accepted'. "
                      "Inputs on which nts.DecodePacket loops forever (extension field Length 0) are pre-filtered, not executed.")
     ctx.notes.append("unjudged regions (predicted, not judged): %s" % {"%s:%s" % k: v for k, v in sorted(unj.items())})
-    ctx.notes.append("noncePad / ctPad are empty in every packet the encoder can produce (nonce 16 B, ciphertext 16+4k B); "
-                     "responses with 8 cookies and requests at pool level 1 exceed MaxPacketLen (C11's finding) and are not used")
+    ctx.notes.append("noncePad / ctPad are empty in every packet the encoder can produce (nonce 16 B, ciphertext 16+4k B)")
     distinct = len({(x["role"], x["nf"], x["kind"], x["region"], x["fi"], x["sub"], x["off"], x["bit"], x["val"], x["pk"])
                     for x in recs if x["kind"] not in ("none", "export")})
     pick = [x for x in recs if x["kind"] == "flip" and x["region"] == "placeholderField"][:1] + \
@@ -141,9 +174,11 @@ def run(ctx):
     ctx.cov.update(
         evaluations=len(recs), distinct_nontrivial=distinct,
         rule="classes (role, number of fields, mutation kind, region, field, part) enumerated by TLC from NtsPacket.tla "
-             "(requests with 1..7 cookie/placeholder fields = pool levels 8..2, responses with 1..7 cookies, one cookie); "
+             "(requests with 1..7 cookie/placeholder fields = pool levels 8..1, responses with 1..8 cookies, one cookie); "
              "per class on real packets: %s of the region, every bit and a list of replacement values of every type/"
-             "length field, tail cuts, appended bytes, key / direction / uid / cookie / server-key substitutions; "
+             "length field, tail cuts, appended bytes, whole uid / cookie / placeholder fields appended after the "
+             "authenticator (also to a replayed response to another request), key / direction / uid / cookie / "
+             "server-key substitutions; "
              "distinct = distinct (class, packet instance, byte, bit or value), unmutated packets not counted"
              % ("one seeded bit per byte" if q else "every bit of every byte"),
         traces_validated_against_impl=nval, classes=len(cases), exhaustive=False, samples=pick or recs[:3])
